@@ -46,7 +46,7 @@ func (lb *WeightedLeastActiveLoadBalance) getIndex() int {
 	n := len(lb.URLs)
 	leastActiveIndexes := make([]int, 0, n)
 
-	lb.rwlock.RLock()
+	// called with the lock held: choosing and counting are one step (see Handler)
 	leastActive := lb.actives.Min()
 	var totalWeight int64
 	for i := 0; i < n; i++ {
@@ -55,7 +55,6 @@ func (lb *WeightedLeastActiveLoadBalance) getIndex() int {
 			totalWeight += lb.effectiveWeights[i]
 		}
 	}
-	lb.rwlock.RUnlock()
 
 	index := leastActiveIndexes[0]
 	count := len(leastActiveIndexes)
@@ -66,7 +65,6 @@ func (lb *WeightedLeastActiveLoadBalance) getIndex() int {
 		return leastActiveIndexes[rand.Intn(count)]
 	}
 	currentWeight := rand.Int63n(totalWeight)
-	lb.rwlock.RLock()
 	for i := 0; i < count; i++ {
 		currentWeight -= lb.effectiveWeights[leastActiveIndexes[i]]
 		if currentWeight < 0 {
@@ -74,18 +72,18 @@ func (lb *WeightedLeastActiveLoadBalance) getIndex() int {
 			break
 		}
 	}
-	lb.rwlock.RUnlock()
 	return index
 }
 
 // Handler for WeightedLeastActiveLoadBalance.
 func (lb *WeightedLeastActiveLoadBalance) Handler(ctx context.Context, request []byte, next core.NextIOHandler) (response []byte, err error) {
-	index := lb.getIndex()
-	core.GetClientContext(ctx).URL = lb.URLs[index]
-	fmt.Println(lb.URLs[index])
+	// callers that arrive together must not choose from the same counts
 	lb.rwlock.Lock()
+	index := lb.getIndex()
 	lb.actives[index]++
 	lb.rwlock.Unlock()
+	core.GetClientContext(ctx).URL = lb.URLs[index]
+	fmt.Println(lb.URLs[index])
 
 	panicking := true // panic(nil) makes recover return nil: only this tells it from a return
 	defer func() {
